@@ -1,5 +1,6 @@
 import NdnModel.Lvs.Proto
 import NdnModel.Lvs.Compile
+import NdnModel.Lvs.SrcSem
 /-!
   Line protocol for the compiler model (drivers of C11 and C13); every other request is passed on to
   `Proto.handle`.
@@ -12,6 +13,13 @@ import NdnModel.Lvs.Compile
                                                  `<k>` = `1` iff the merge key is injective on the chains, `keyInjB`)
             | `cfull <schema> <env> <names>`     answers `cerr <Error>` | `ok <model> <symbols> <k> <Error>`
                                                  | `ok <model> <symbols> <k> accepted <mmatch answer>`
+            | `csrc <schema> <env> <names>`      as `cfull`; an accepted answer is followed by ` <src answer>`
+            | `src-match <schema> <env> <names>` answers `cerr <Error>` (pass 1 refuses the schema: undefined / temporary /
+                                                 cyclic rule references) | `ok <src answer>`: the SOURCE-LEVEL semantics
+                                                 (`NdnModel/Lvs/SrcSem.lean`, `srcMatch` on the rules with temporary rules
+                                                 renamed as pass 1 does; no compiled model involved)
+  src answer ::= r (`/` r)*, one per name        r ::= `E~<Error>` (no readable last component) | `S~` (`.` | m (`;` m)*)
+  m       ::= `<ruleId>@` (`.` | `<ident>=<hex>` (`,` `<ident>=<hex>`)*)     one per (definition, expansion) that matches
   schema  ::= `.` | rule (`|` rule)*
   rule    ::= `<id>;<comps>;<cons>;<sign>`       comps ::= comp (`,` comp)*     sign ::= `.` | id (`,` id)*
   comp    ::= `L<hex>` | `P<ident>` | `R<ruleId>`
@@ -109,8 +117,38 @@ def keyFlag (S : Schema) : String :=
   | .ok (chains, _) => if keyInjB chains then "1" else "0"
   | .error _ => "0"
 
+def showSCtx (c : SCtx) : String :=
+  if c.isEmpty then "." else ",".intercalate (c.map fun p => p.1 ++ "=" ++ toHex p.2)
+
+/-- the source-level matches of one name (after dropping a trailing implicit digest, as `Checker.match` does) -/
+def srcOne (S' : Schema) (fns : PureEnv) (name : List Bytes) : String :=
+  match stripDigest name with
+  | .error e => "E~" ++ e.name
+  | .ok nm => "S~" ++ sList ";" ((srcMatch S' fns [] nm).map fun o => o.1 ++ "@" ++ showSCtx o.2)
+
+def srcAnswer (S : Schema) (env : FnEnv) (names : List (List Bytes)) : String :=
+  "/".intercalate (names.map (srcOne ⟨renameTemps S.rules 1⟩ (pureOf env)))
+
 def handle (args : List String) : String :=
   match args with
+  | ["src-match", ss, es, nss] =>
+    match parseSchema ss, parseEnv es, (nss.splitOn "/").mapM fromHexList with
+    | some S, some env, some names =>
+      match sortRuleReferences S with
+      | .error e => "cerr " ++ e.name
+      | .ok _ => "ok " ++ srcAnswer S env names
+    | _, _, _ => "bad-op"
+  | ["csrc", ss, es, nss] =>
+    match parseSchema ss, parseEnv es, (nss.splitOn "/").mapM fromHexList with
+    | some S, some env, some names =>
+      match compile S with
+      | .error e => "cerr " ++ e.name
+      | .ok (m, syms) =>
+        "ok " ++ showModel m ++ " " ++ sList "," syms ++ " " ++ keyFlag S ++ " " ++
+          (match sanityCheck m with
+            | .error e => e.name
+            | .ok _ => "accepted " ++ "/".intercalate (names.map (matchOne m env false)) ++ " " ++ srcAnswer S env names)
+    | _, _, _ => "bad-op"
   | ["compile", ss] =>
     match parseSchema ss with
     | none => "bad-op"
